@@ -472,8 +472,28 @@ func corrDesc(r *hx.Rng, n int, thorough bool) {
 // (descriptor alone, inside an esds box, inside an mp4a entry; reader and slice-reader paths) must give a, the decoded
 // value must re-encode to the bytes it was read from, and decoding the re-encoded entry must give a again
 func checkEsdsShape(a *aac.AudioSpecificConfig, e *ges, seedNote string) {
+	checkEsdsBytes(a, e.bytes())
+}
+
+// replayEsds re-evaluates a recorded witness: the configuration is the one the recorded descriptor carries
+func replayEsds(es []byte) {
+	var a *aac.AudioSpecificConfig
+	p := hx.Try(func() {
+		ed, err := mp4.DecodeESDescriptor(bits.NewFixedSliceReader(hx.Exact(es)), uint32(len(es)))
+		if err == nil && esDecConfig(&ed) != nil {
+			a, _ = aac.DecodeAudioSpecificConfig(bytes.NewReader(esDecConfig(&ed)))
+		}
+	})
+	if p != "" || a == nil {
+		evals++
+		fail("esds-descriptors", "esds-decode", "esds="+hx.Hex(es), "the recorded well-formed descriptor does not decode to a configuration")
+		return
+	}
+	checkEsdsBytes(a, es)
+}
+
+func checkEsdsBytes(a *aac.AudioSpecificConfig, es []byte) {
 	evals++
-	es := e.bytes()
 	w := "esds=" + hx.Hex(es)
 	noteInput('D', nil, es)
 	_, dc := encodeASC(a)
